@@ -715,7 +715,7 @@ class EvalFunc:
             args.append(arg.arg)
         return args
 
-    async def call(self, ast_ctx, *args, **kwargs):
+    async def call(self, ast_ctx, /, *args, **kwargs):
         """Call the function with the given context and arguments."""
         sym_table = {}
         if args is None:
@@ -853,7 +853,7 @@ class EvalFuncVar:
         self.func = None
         return func
 
-    async def call(self, ast_ctx, *args, **kwargs):
+    async def call(self, ast_ctx, /, *args, **kwargs):
         """Call the EvalFunc function."""
         return await self.func.call(ast_ctx, *args, **kwargs)
 
@@ -901,7 +901,7 @@ class EvalFuncVarClassInst(EvalFuncVar):
         self.ast_ctx = ast_ctx
         self.class_inst_weak = class_inst_weak
 
-    async def call(self, ast_ctx, *args, **kwargs):
+    async def call(self, ast_ctx, /, *args, **kwargs):
         """Call the EvalFunc function."""
         return await self.func.call(ast_ctx, self.class_inst_weak(), *args, **kwargs)
 
@@ -1898,7 +1898,7 @@ class AstEval:
             func = func.get()
         return await self.call_func(func, func_name, *args, **kwargs)
 
-    async def call_func(self, func, func_name, *args, **kwargs):
+    async def call_func(self, func, func_name, /, *args, **kwargs):
         """Call a function with the given arguments."""
         if func_name is None:
             try:
